@@ -67,15 +67,19 @@ def run_one(meta, repo, tier="quick"):
         shutil.rmtree(work, ignore_errors=True)
 
 
-def cross_negatives(repo=None, jobs=8):
+def cross_negatives(repo=None, jobs=8, only_props=None, exclude_own=False):
     """every behaviour-preserving mutant must be silent under EVERY claimed property, not only the one it was written for"""
     repo = repo or X.REPO
     metas = [parse(p) for p in sorted(glob.glob(os.path.join(VERIF, "mutants", "*.patch")))]
     metas = [m for m in metas if m.get("kind") == "negative"]
     props = [c["property_id"] for c in json.load(open(os.path.join(VERIF, "MANIFEST.json")))["checks"]]
+    if only_props:
+        props = [p for p in props if p in only_props]
     jobs_l = []
     for m in metas:
         for p in props:
+            if exclude_own and m.get("property") == p:
+                continue
             mm = dict(m)
             mm["property"] = p
             mm["name"] = "%s@%s" % (m["name"], p)
@@ -88,6 +92,7 @@ def cross_negatives(repo=None, jobs=8):
                 print("%-12s %s fired=%s exit=%s" % (r["status"], r["name"], r.get("rules_fired"), r.get("exit")))
                 sys.stdout.flush()
     print("cross-negatives: %d runs (%d behaviour-preserving mutants x %d properties), %d not silent" % (len(jobs_l), len(metas), len(props), len(bad)))
+    cross_negatives.last_runs = len(jobs_l)
     return bad
 
 
